@@ -674,7 +674,8 @@ class BulkIndex(Runner):
         """
         error_descriptions = []
         is_truncated = False
-        for count, error_detail in enumerate(sorted(error_details)):
+        # the reason may be absent (``None``) which cannot be compared to a string
+        for count, error_detail in enumerate(sorted(error_details, key=lambda d: (d[0], d[1] or ""))):
             status, reason = error_detail
             if count < 5:
                 if reason:
